@@ -5,6 +5,7 @@ import (
 	"fmt"
 	"sort"
 	"strings"
+	"sync/atomic"
 	"testing"
 	"time"
 
@@ -68,6 +69,8 @@ func describeEvent(e *gostatsd.Event) string {
 	return fmt.Sprintf("%s|%s|%s|%v", e.Title, e.Text, e.Source, t)
 }
 
+var lookupPatienceMs int64 = 30000
+
 func TestCloudStageHistories(t *testing.T) {
 	rapid.Check(t, func(t *rapid.T) {
 		ci := fakes.NewCachedInstances()
@@ -116,8 +119,10 @@ func TestCloudStageHistories(t *testing.T) {
 					}
 					delete(want, s)
 					requested[s] = true
-				case <-time.After(30 * time.Second):
-					fail("C11:lookup-never-requested", "no lookup requested for %v within 30s", want)
+				case <-time.After(time.Duration(atomic.LoadInt64(&lookupPatienceMs)) * time.Millisecond):
+					// once a lookup was not requested, further cases (rapid shrinking the first) wait 2 s instead of 30
+					atomic.StoreInt64(&lookupPatienceMs, 2000)
+					fail("C11:lookup-never-requested", "no lookup requested for %v within the patience (30s; 2s after a first failure)", want)
 				}
 			}
 			// nothing more may be offered
@@ -210,6 +215,9 @@ func TestCloudStageHistories(t *testing.T) {
 					t.Skip("no burst now")
 				}
 				n := rapid.IntRange(9, 20).Draw(t, "new-hosts")
+				if rapid.IntRange(0, 9).Draw(t, "fleet") == 0 {
+					n = rapid.SampledFrom([]int{256, 257, 300}).Draw(t, "fleet-hosts") // a whole fleet starts up at once
+				}
 				var pts []*gostatsd.Metric
 				var newly []gostatsd.Source
 				for i := 0; i < n; i++ {
